@@ -33,7 +33,9 @@ KEEPING = {'filter', 'for_each', 'iter', 'into_iter', 'copied', 'cloned', 'by_re
 class PipeRule:
     """Symbolic evaluation of the generated autocomplete body."""
 
-    def __init__(self):
+    def __init__(self, concrete=False):
+        self.concrete = concrete
+        self.table = None
         self.merges = []       # descriptions of merge calls seen directly (not through for_each)
         self.pipeline = None
         self.members = []
@@ -120,9 +122,100 @@ class PipeRule:
             return 'suffix'
         return '?'
 
+    # ---- concrete evaluation of the pipeline over the constant table (request is a constant) ----
+    def stream_next(self, I, w, depth, st):
+        """-> list of (world, stream', item|None)"""
+        _, items, adaptors = st
+        items = list(items)
+        adaptors = list(adaptors)
+        while items:
+            it = items.pop(0)
+            item = ('ref', ('const', ('cstr', it)))
+            keep = True
+            for ai, (kind, clos, state) in enumerate(adaptors):
+                if kind == 'take_while' and state == 'done':
+                    return [(w, ('cstream', (), tuple(adaptors)), None)]
+                r = I.call_closure(w, depth, clos, [('ref', ('const', item))])
+                vals = {int_singleton(rv) if rv[0] == 'int' else None for _, rv in (r or [(w, TOP)])}
+                if len(vals) != 1 or None in vals:
+                    self.unknown.append("predicate of `%s` not decidable on constants" % kind)
+                    return [(w, ('cstream', (), tuple(adaptors)), None)]
+                t = vals == {1}
+                if kind == 'filter':
+                    if not t:
+                        keep = False
+                        break
+                elif kind == 'skip_while':
+                    if state != 'done':
+                        if t:
+                            keep = False
+                            break
+                        adaptors[ai] = (kind, clos, 'done')
+                elif kind == 'take_while':
+                    if not t:
+                        adaptors[ai] = (kind, clos, 'done')
+                        return [(w, ('cstream', (), tuple(adaptors)), None)]
+            if keep:
+                return [(w, ('cstream', tuple(items), tuple(adaptors)), item)]
+        return [(w, ('cstream', (), tuple(adaptors)), None)]
+
     def on_call(self, I, w, ci, args):
         p = ci.npath or ''
         name = ci.name
+        if self.concrete:
+            if p == 'core::slice::<impl [T]>::iter':
+                a = args[0]
+                if a[0] == 'ref':
+                    a = I.read(w, a[1])
+                if a[0] == 'arr' and all(x[0] == 'cstr' for _, x in a[1]):
+                    self.table = tuple(x[1] for _, x in a[1])
+                    return [(w, ('cstream', self.table, ()))]
+                self.unknown.append("iteration over something that is not the constant name table at %s" % ci.span)
+                return None
+            if ci.trait == 'core::iter::traits::iterator::Iterator' and args:
+                a0 = args[0]
+                tgt = None
+                if a0[0] == 'ref' and a0[1][0] not in ('const', 'val'):
+                    tgt = a0[1]
+                    a0 = I.read(w, tgt)
+                if a0[0] == 'cstream':
+                    if name in ('filter', 'skip_while', 'take_while'):
+                        return [(w, ('cstream', a0[1], a0[2] + ((name, args[1], None),)))]
+                    if name == 'next':
+                        out = []
+                        for w2, st2, item in self.stream_next(I, w, ci.depth, a0):
+                            if tgt is not None:
+                                w2 = I.write(w2, tgt, st2)
+                            out.append((w2, some(item) if item is not None else none()))
+                        return out
+                    if name == 'for_each':
+                        worlds = [(w, a0)]
+                        done = []
+                        for _ in range(len(a0[1]) + 2):
+                            nxt = []
+                            for w1, s1 in worlds:
+                                for w2, s2, item in self.stream_next(I, w1, ci.depth, s1):
+                                    if item is None:
+                                        done.append((w2, UNIT))
+                                    else:
+                                        r = I.call_closure(w2, ci.depth, args[1], [item])
+                                        for w3, _ in (r or [(w2, UNIT)]):
+                                            nxt.append((w3, s2))
+                            worlds = nxt
+                            if not worlds:
+                                break
+                        return done
+                    self.unknown.append("iterator adaptor `%s` not modelled at %s" % (name, ci.span))
+                    return None
+            tr = strip_crate(ci.trait)
+            if tr == 'service::Autocomplete' and name == 'autocomplete':
+                ty = ci.gargs[0] if ci.gargs else {}
+                self.members.append(F.norm_path(ty.get('path')) if ty.get('k') == 'adt' else ty.get('s'))
+                return [(w, UNIT)]
+            if p.endswith('::merge_autocompletion'):
+                a = args[1]
+                return [(w.with_st(w.st + ((a[1] if a[0] == 'cstr' else None),)), UNIT)]
+            return None
         if p == 'core::slice::<impl [T]>::iter':
             a = args[0]
             if a[0] == 'ref':
@@ -170,6 +263,48 @@ def eval_pipeline(names, adaptors, request):
                 i += 1
             cur = cur[:i]
     return cur
+
+
+def check_concrete(res, crates, f, tk, orc):
+    """A1 by constant propagation: interpret the generated body for every request that is a prefix of a name of its own
+    constant table; on every path the candidates merged must be exactly the matching names' suffixes.
+    -> True when the body could be evaluated this way (then the symbolic pipeline description is not needed)."""
+    probe = PipeRule(concrete=True)
+    I = Interp(crates, probe)
+    I.run(f, [('adt', 'autocomplete::Request', 0, (('cstr', b'\xff'),)), TOP], (), {})
+    if probe.table is None:
+        return False
+    names = [b.decode('utf-8') for b in probe.table]
+    if orc:
+        want = [c['name'] for c in orc['commands']]
+        good = sorted(names) == sorted(want)
+        res.oblige("A1.table|%s" % tk, good, violation=None if good else dict(
+            rule='C11.names', key="C11|names|%s" % tk,
+            msg="derived Autocomplete for %s completes over %s, the declaration's names are %s" % (tk, names, want)))
+    prefixes = sorted({n[:i] for n in names for i in range(1, len(n) + 1)})
+    lost = []
+    for p in prefixes:
+        rule = PipeRule(concrete=True)
+        I = Interp(crates, rule)
+        ex = I.run(f, [('adt', 'autocomplete::Request', 0, (('cstr', p.encode('utf-8')),)), TOP], (), {})
+        want = sorted(n[len(p):] for n in names if n.startswith(p))
+        for u in rule.unknown:
+            res.add_violation(dict(rule='C11.pipeline', key="C11|pipeline|%s|%s" % (tk, u[:40]),
+                                   msg="derived Autocomplete for %s: %s" % (tk, u)))
+        for w, rv in ex:
+            got = sorted(x.decode('utf-8') if x is not None else '?' for x in w.st)
+            good = got == want
+            res.oblige("A1|%s|%s|%s" % (tk, p, ",".join(got)), good, sample="%s: request %r -> merged %s" % (tk, p, got))
+            if not good:
+                lost.append((p, want, got))
+    if lost:
+        p, want, got = lost[0]
+        res.add_violation(dict(
+            rule='C11.candidates', key="C11|candidates|%s" % tk,
+            msg="derived Autocomplete for %s (table %s): for the request %r the continuations %s must all reach "
+                "merge_autocompletion, but a path merges only %s (%d request/path cases affected)" % (tk, names, p, want, got, len(lost)),
+            examples=["%r: want %s got %s" % x for x in lost[:20]]))
+    return True
 
 
 def autocomplete_impls(crate):
@@ -221,6 +356,9 @@ def run(ctx, res):
                     good = len(set(rule.members)) == len(rule.members)
                     res.oblige("A2|%s|%s" % (cname, tk), good)
                 continue
+            if not (orc and orc.get('skip_autocomplete')):
+                if check_concrete(res, I.crates, f, tk, orc):
+                    continue
             for u in rule.unknown:
                 res.add_violation(dict(rule='C11.pipeline', key="C11|pipeline|%s|%s" % (tk, u[:40]),
                                        msg="derived Autocomplete for %s: %s" % (tk, u)))
